@@ -53,7 +53,8 @@ def E.A (nil : V) (wrapErr : ErrV → V) (mkArr : V → V → V) : E V → V
   | .err e => mkArr nil (wrapErr e)
 def E.valOr (nil : V) : E V → V | .val v => v | .err _ => nil
 def E.errOr (nil : V) (wrapErr : ErrV → V) : E V → V | .val _ => nil | .err e => wrapErr e
-def E.isVal : E V → Bool | .val _ => true | .err _ => false
+/-- `val?` is `.val != nil` (native/Either.pangaea): a success whose value is nil "has no value" -/
+def E.isVal (isNil : V → Bool) : E V → Bool | .val v => !isNil v | .err _ => false
 def E.isErr : E V → Bool | .val _ => false | .err _ => true
 def E.orElse (d : V) : E V → V | .val v => v | .err _ => d
 /-- `abandon`: the value, or the error raised again -/
